@@ -25,6 +25,7 @@ type c08Case struct {
 	Kind string `json:"kind"` // cut | srvend | tlscut
 
 	// cut
+	CSeed   uint64 `json:"cseed"`
 	Conv    int    `json:"conv"`
 	Name    string `json:"name"`
 	Cut     int    `json:"cut"`
@@ -91,6 +92,15 @@ func c08Run(ctx *core.Ctx) {
 					if ctx.Thorough() {
 						emit(c08Case{Kind: "cut", Conv: ci, Name: c.Name, Cut: cut, Failure: f, Seg: []string{"line", "one"}[(cut+fi)%2], Mode: c.Mode})
 					}
+				}
+			}
+		}
+		if ctx.Thorough() {
+			for k := 0; k < 2500; k++ {
+				cv := seededConv(ctx.Seed+1, k)
+				n := len(cv.bytes())
+				for cut := 0; cut <= n; cut++ {
+					emit(c08Case{Kind: "cut", CSeed: ctx.Seed + 1, Conv: k, Name: cv.Name, Cut: cut, Failure: []string{"close", "timeout", "reset"}[cut%3], Seg: []string{"one", "line"}[(cut/3)%2], Mode: cv.Mode})
 				}
 			}
 		}
@@ -294,17 +304,16 @@ func c08AuthHooks(rig *wire.Rig) {
 }
 
 func c08Cut(ctx *core.Ctx, c c08Case) {
-	cs := c08Corpus()
-	if c.Conv < 0 || c.Conv >= len(cs) {
+	cv, okc := convFor(c08Corpus(), c.CSeed, c.Conv)
+	if !okc {
 		ctx.Broken("C08: bad conversation index")
 		return
 	}
-	cv := cs[c.Conv]
 	all := cv.bytes()
 	if c.Cut > len(all) {
 		c.Cut = len(all)
 	}
-	ctx.Eval(fmt.Sprintf("cut|%d|%d|%s|%s", c.Conv, c.Cut, c.Failure, c.Seg), c.Cut >= len(cv.Steps[0].B))
+	ctx.Eval(fmt.Sprintf("cut|%d|%d|%d|%s|%s", c.CSeed, c.Conv, c.Cut, c.Failure, c.Seg), c.Cut >= len(cv.Steps[0].B))
 	kind := cv.Mode.kind()
 	if cv.Auth {
 		kind = rec.Auth
